@@ -13,7 +13,11 @@ META = dict(
          "receives the faulty bytes, the outer two send two valid keep-alive requests each; serviceAll is called repeatedly.  Required: "
          "serviceAll never raises, the healthy connections receive exactly their correct responses in both rounds, and the faulty connection "
          "ends up answered, still waiting, or closed and removed.  Client: a real Patron sends a request to a harness-played server that answers "
-         "with the faulty bytes; serviceAll must never raise.",
+         "with the faulty bytes; serviceAll must never raise.  Oversize family: every line-like element of every seed (request / status line, "
+         "each header line, each chunk-size line via leading zeros, a chunk extension, each trailer line, each event-stream line) is grown to "
+         "MAX_LINE_SIZE-1, MAX_LINE_SIZE, MAX_LINE_SIZE+1 and 2*MAX_LINE_SIZE bytes (limits read from httping) and delivered in one receive and "
+         "in two receives cut just before the line's end-of-line; the header count is raised to MAX_HEADERS-1, MAX_HEADERS, MAX_HEADERS+1 and "
+         "2*MAX_HEADERS; same oracle.",
     note="Single faults only (one mutation or one truncation per message), messages delivered in one receive (arrival schedules are C29's "
          "subject), socket doubles answer naturally (no partial sends).  A faulty message that still parses is served like any request; whether "
          "it should have been rejected is not judged.  A client that waits forever after a truncated response is accepted (no raise).",
@@ -171,11 +175,17 @@ def server_exec(FSM, data, close_after):
         a.send(GOOD[0][rnd][0])
         c.send(GOOD[1][rnd][0])
         if rnd == 0:
-            if data:
-                k.send(data)
+            pieces = list(data) if isinstance(data, (list, tuple)) else [data]
+            if pieces[0]:
+                k.send(pieces[0])
             if close_after:
                 k.close()
         for i in range(4):
+            if rnd == 0 and i == 2 and len(pieces) > 1:      # second receive two service passes later
+                try:
+                    k.send(pieces[1])
+                except OSError:
+                    pass
             try:
                 valet.serviceAll()
             except Exception as ex:
@@ -245,11 +255,17 @@ def client_exec(FSM, data, close_after):
     req = conn.recv(65536)
     if not req.startswith(b"GET /p HTTP/1.1\r\n"):
         raise core.BrokenCheck("fake server did not receive the request: %r" % req)
-    if data:
-        conn.send(data)
+    pieces = list(data) if isinstance(data, (list, tuple)) else [data]
+    if pieces[0]:
+        conn.send(pieces[0])
     if close_after:
         conn.close()
     for i in range(5):
+        if i == 2 and len(pieces) > 1:
+            try:
+                conn.send(pieces[1])
+            except OSError:
+                pass
         try:
             patron.serviceAll()
         except Exception as ex:
@@ -263,6 +279,125 @@ def client_exec(FSM, data, close_after):
     if patron.events:
         return "events", None
     return "waiting", None
+
+
+# --------------------------------------------------------------------------- oversize family
+
+def elements(seed, is_request):
+    """Line-like elements of a seed -> list of (name, insert_pos, eol_pos, line_len, pad_prefix, pad_byte).
+    Growing an element = inserting padding at insert_pos so that the line (bytes before its EOL) gets
+    the wanted length: request line (path padded), status line (reason), every header line (value),
+    chunk-size line (leading zeros), chunk extension (';x=' + padding), trailer lines (value),
+    event-stream lines (value)."""
+    out = []
+    pos = 0
+    first = True
+    chunked = evented = False
+    while True:
+        idx = seed.index(b"\r\n", pos)
+        line = seed[pos:idx]
+        if not line:
+            pos = idx + 2
+            break
+        if first:
+            if is_request:
+                out.append(("request-line", seed.index(b" HTTP/", pos), idx, len(line), b"", b"a"))
+            else:
+                out.append(("status-line", idx, idx, len(line), b"", b"a"))
+            first = False
+        else:
+            name = line.split(b":")[0].decode("latin-1")
+            out.append(("header:" + name, idx, idx, len(line), b"", b"a"))
+            low = line.lower()
+            chunked = chunked or (low.startswith(b"transfer-encoding") and b"chunked" in low)
+            evented = evented or b"text/event-stream" in low
+        pos = idx + 2
+    head_end = pos - 2          # position of the blank line's CRLF
+    if chunked:
+        n = 0
+        while pos < len(seed):
+            idx = seed.index(b"\r\n", pos)
+            line = seed[pos:idx]
+            size = int(line.split(b";")[0], 16)
+            tag = "last-chunk" if size == 0 else "chunk%d" % n
+            out.append((tag + "-size", pos, idx, len(line), b"", b"0"))
+            out.append((tag + "-ext", idx, idx, len(line), b";x=", b"a"))
+            pos = idx + 2
+            if size == 0:
+                while True:
+                    idx = seed.index(b"\r\n", pos)
+                    line = seed[pos:idx]
+                    if not line:
+                        break
+                    out.append(("trailer:" + line.split(b":")[0].decode("latin-1"), idx, idx, len(line), b"", b"a"))
+                    pos = idx + 2
+                break
+            pos += size + 2
+            n += 1
+    elif evented:
+        n = 0
+        while pos < len(seed):
+            idx = seed.index(b"\n", pos)
+            if idx > pos:
+                out.append(("event-line%d" % n, idx, idx, idx - pos, b"", b"a"))
+                n += 1
+            pos = idx + 1
+    return out, head_end
+
+
+def oversize_cases(seed, is_request, limit, maxheaders):
+    """Yield (description, recipe, pieces).  Lengths and counts are named relative to the limits."""
+    els, head_end = elements(seed, is_request)
+    for name, ins, eol, linelen, prefix, padbyte in els:
+        for lname, target in (("limit-1", limit - 1), ("limit", limit), ("limit+1", limit + 1), ("2*limit", 2 * limit)):
+            npad = target - linelen
+            pad = prefix + padbyte * (npad - len(prefix))
+            data = seed[:ins] + pad + seed[ins:]
+            neweol = eol + npad
+            recipe = dict(element=name, line_length=lname, line_length_bytes=target, insert_at=ins,
+                          padding="%r + %r * %d" % (prefix, padbyte, npad - len(prefix)), eol_at=neweol)
+            yield "oversize %s len=%s burst" % (name, lname), dict(recipe, delivery="one receive"), [data]
+            yield ("oversize %s len=%s cut-before-eol" % (name, lname),
+                   dict(recipe, delivery="two receives, cut at %d just before the line's EOL" % neweol),
+                   [data[:neweol], data[neweol:]])
+    have = sum(1 for e in els if e[0].startswith("header:"))
+    for cname, target in (("max-1", maxheaders - 1), ("max", maxheaders), ("max+1", maxheaders + 1), ("2*max", 2 * maxheaders)):
+        extra = b"".join(b"X-%d: v\r\n" % i for i in range(target - have))
+        data = seed[:head_end] + extra + seed[head_end:]
+        yield ("header-count %s burst" % cname,
+               dict(element="header count", headers=cname, headers_total=target, insert_at=head_end,
+                    padding="'X-<i>: v\\r\\n' for i in range(%d)" % (target - have), delivery="one receive"), [data])
+
+
+def work_oversize(item):
+    side, si = item
+    FSM = setup()
+    from ioflo.aio.http import httping
+    limit, maxheaders = httping.MAX_LINE_SIZE, httping.MAX_HEADERS
+    part = core.Part()
+    if side == "server":
+        label, seed = REQ_SEEDS[si]
+        execute, closes = server_exec, False
+    else:
+        label, seed, closes = RSP_SEEDS[si]
+        execute = client_exec
+    with core.watchdog(900):
+        for desc, recipe, pieces in oversize_cases(seed, side == "server", limit, maxheaders):
+            out, viol = execute(FSM, pieces, closes)
+            part.evaluations += 1
+            part.nontrivial(repr((side, label, desc)))
+            over = "over" if ("limit+1" in desc or "2*limit" in desc or "max+1" in desc or "2*max" in desc) else "within"
+            part.outcome("%s:%s-%s-limit:%s" % (side, "header-count" if desc.startswith("header-count") else "line", over, out))
+            if viol is not None:
+                group, what = viol
+                part.violation(group, "%s %s" % (label, desc),
+                               "%s seed %r, fault %s (limits: line %d bytes, %d headers): %s" % (side, label, desc, limit, maxheaders, what),
+                               dict(side=side, seed=label, seed_bytes=seed, fault=desc, recipe=recipe,
+                                    total_bytes=sum(len(p) for p in pieces), close_after=closes,
+                                    limits=dict(MAX_LINE_SIZE=limit, MAX_HEADERS=maxheaders), what=what))
+        if si == 2:
+            part.sample(dict(side=side, seed=label, fault=desc, recipe=recipe, outcome=out))
+    return part
 
 
 # --------------------------------------------------------------------------- driver
@@ -316,6 +451,8 @@ def setup():
 
 
 def work(item):
+    if item[0].endswith("-oversize"):
+        return work_oversize((item[0].split("-")[0], item[1]))
     side, si, kind = item
     FSM = setup()
     part = core.Part()
@@ -363,7 +500,10 @@ def run():
     ck = core.Check("C32", "fault_enumeration", META["technique"])
     items = [("server", i, k) for i in range(len(REQ_SEEDS)) for k in KINDS]
     items += [("client", i, k) for i in range(len(RSP_SEEDS)) for k in KINDS]
-    ck.merge(core.pmap(work, items))
+    # oversize payloads are 64-128 KiB each: dispatch them first, merge them last
+    over = [("server-oversize", i, None) for i in range(len(REQ_SEEDS))] + [("client-oversize", i, None) for i in range(len(RSP_SEEDS))]
+    res = core.pmap(work, over + items)
+    ck.merge(res[len(over):] + res[:len(over)])
     ck.coverage_extra = dict(request_seeds=len(REQ_SEEDS), response_seeds=len(RSP_SEEDS), fault_kinds=KINDS,
                              positions="every byte position of every seed")
     ck.assumptions = [
@@ -375,10 +515,13 @@ def run():
         "client side: only 'Patron.serviceAll never raises' is required; a recorded response (errored or not), dispatched events or continued "
         "waiting are all accepted",
         "name resolution is a double: IP literals resolve to themselves, every other host name raises socket.gaierror(EAI_NONAME)",
+        "oversize cases: padding is 'a' in a value ('0' in front of a chunk size, ';x=aaa' as chunk extension); the second receive of a two-piece "
+        "delivery arrives two service passes after the first; a line of exactly MAX_LINE_SIZE bytes may be served or rejected, only the oracle above is judged",
         "the store clock advances 0.05 s per service call, far below the 5 s connection timeout, so no time-out closes interfere",
     ]
     return ck.finish(
-        rule="every distinct faulty byte string obtained from one seed by one fault: position x {delete, duplicate, replace by 00 0a 0d 3a 20 67 ff}, "
+        rule="(plus the oversize family: line-like element x 4 lengths around MAX_LINE_SIZE x 2 deliveries, header count x 4 values around MAX_HEADERS) "
+             "every distinct faulty byte string obtained from one seed by one fault: position x {delete, duplicate, replace by 00 0a 0d 3a 20 67 ff}, "
              "every proper prefix (peer silent) and every prefix followed by peer close; each is one execution on fresh Valet / Patron objects",
         exhaustive=True)
 
